@@ -74,7 +74,7 @@ CLAIMS.update({
             'copies get fresh identities and equal contents, copy-with-changes differs exactly in the named field, mutations never '
             'show in the other object, Eq is reflexive/symmetric and sees every field (unit re-expressions and sub-tolerance pixel '
             'offsets are the same value); every state is one implementation test incl. ==/!= both ways and copy.deepcopy; Lists.tla '
-            'does the same for sliced/copied Regions lists. DictEq.tla: one meta/visual entry under every documented key x pairs of values (absent, None, default-like, empty, lists differing in length) x 7 classes, each pair replayed through ==/!= both ways.',
+            'does the same for sliced/copied Regions lists. DictEq.tla: one meta/visual entry under every documented key x pairs of values (absent, None, default-like, empty, lists differing in length) x 7 classes, each pair replayed through ==/!= both ways. FieldEq.tla: for every class and field, every pair of valid tokens (2 208 single-field perturbations), directly built and through copy(field=value).',
             OBJ_NOTE, 'TLA+ heap model + TLC, one implementation test per reachable state (spec->code)', 'DESIGN.md section 5 C16', 'objects'),
     'C17': ('model_checking',
             'Objects.tla: AllValid and RejectIsStutter are invariants over constructions (every class, valid and one-bad-argument '
